@@ -977,6 +977,9 @@ package keeper
 //@ ensures [epoch-boundary-queues-then-sends] (stretch) result1 == nil && height % e == 0 ==> $QueueVSCPackets.called && $QueueVSCPackets.ret == nil && $SendVSCPackets.called
 //@ ensures [mid-epoch-silent] (stretch) height % e != 0 ==> !$QueueVSCPackets.called && !$SendVSCPackets.called
 //@ precall SendVSCPackets [after-queueing] $QueueVSCPackets.called && $QueueVSCPackets.ret == nil
+//@ ensures [epoch-end-always-queues-and-sends] result1 == nil && $BlocksUntilNextEpoch.called && $BlocksUntilNextEpoch.ret == 0 ==> $QueueVSCPackets.called && $QueueVSCPackets.ret == nil && $SendVSCPackets.called && $SendVSCPackets.ret == nil
+//@ ensures [mid-epoch-neither] $BlocksUntilNextEpoch.called && $BlocksUntilNextEpoch.ret != 0 ==> !$QueueVSCPackets.called && !$SendVSCPackets.called
+//@ ensures [epoch-position-consulted] result1 == nil ==> $BlocksUntilNextEpoch.called
 
 // ---------------------------------------------------------------- C05: staking hooks
 
@@ -1085,3 +1088,9 @@ package keeper
 //@ ensures [only-this-consumers-pending-change] forall key bytes :: key != types.ConsumerIdToQueuedInfractionParametersKey(consumerId) && fam(key) != types.InfractionScheduledTimeToConsumerIdsKeyPrefix() ==> S[key] == old(S[key])
 //@ ensures [parameters-in-force-kept] k.GetInfractionParameters(ctx, consumerId) == old(k.GetInfractionParameters(ctx, consumerId))
 //@ ensures [no-deps] E == old(E) && X == old(X)
+
+// ---------------------------------------------------------------- C09: the meter is checked at the start of every block
+
+//@ func Keeper.BeginBlockCIS
+//@ requires [W-meter-initialised] present(providertypes.SlashMeterKey()) && present(providertypes.SlashMeterReplenishTimeCandidateKey())
+//@ ensures [always-checks-the-meter] $CheckForSlashMeterReplenishment.called
